@@ -39,13 +39,13 @@ def codecLine (line : String) : List String :=
           | some out =>
             let mout := encode p
             let d1 := if mout == out then [] else
-              [s!"DIFF codec E pkt=[{String.intercalate " " ctoks}] impl={packed} model={hexOf mout}"]
+              [s!"DIFF codec E legal={b01 (Spec.Legal p)} pkt=[{String.intercalate " " ctoks}] impl={packed} model={hexOf mout}"]
             let implDecode := String.intercalate " | " rest
             if implDecode == "SKIP" then d1 else
             let mdec := decodeResult (out.take Gen.MaxPacketLen)
             let implPanic := implDecode.startsWith "PANIC"
             let d2 := if (if implPanic then mdec == "PANIC" else mdec == implDecode) then [] else
-              [s!"DIFF codec E-decode pkt=[{String.intercalate " " ctoks}] impl=[{implDecode}] model=[{mdec}]"]
+              [s!"DIFF codec E-decode legal={b01 (Spec.Legal p)} pkt=[{String.intercalate " " ctoks}] impl=[{implDecode}] model=[{mdec}]"]
             let back : Option Pkt :=
               match rest with
               | [_, c, _] => parseCanon (words c)
@@ -56,6 +56,37 @@ def codecLine (line : String) : List String :=
             let c20 := if implPanic then [s!"MON C20 decode-panic input={packed} [{implDecode}]"] else []
             d1 ++ d2 ++ c21 ++ c20
         | [] => [s!"BADLINE {line}"]
+    | ["S", ids] =>
+      match ids.toNat? with
+      | none => [s!"BADLINE {line}"]
+      | some n =>
+        let id := UInt16.ofNat n
+        let name := decodeShortTopic id
+        let model := s!"{hexOf name} {encodeShortTopic name} {b01 (isShortTopic name)}"
+        let d := if model == impl then [] else [s!"DIFF codec S {ids} impl=[{impl}] model=[{model}]"]
+        -- C21 monitor on the implementation's own answer: 2-byte name, maps back to the ID
+        let m := match words impl with
+          | [hx, back, isS] =>
+            match parseHex hx with
+            | some nm => if nm.length == 2 && back == ids && isS == "1" then [] else
+                [s!"MON C21 short-topic-not-bijective id={ids} impl=[{impl}]"]
+            | none => [s!"BADLINE {line}"]
+          | _ => [s!"BADLINE {line}"]
+        d ++ m
+    | ["N", hx] =>
+      match parseHex hx with
+      | none => [s!"BADLINE {line}"]
+      | some nm =>
+        let id := encodeShortTopic nm
+        let model := s!"{id} {hexOf (decodeShortTopic id)} {b01 (isShortTopic nm)}"
+        let d := if model == impl then [] else [s!"DIFF codec N {hx} impl=[{impl}] model=[{model}]"]
+        let m := match words impl with
+          | [_, back, isS] =>
+            if nm.length == 2 then
+              (if back == hx && isS == "1" then [] else [s!"MON C21 short-topic-not-bijective name={hx} impl=[{impl}]"])
+            else (if isS == "0" then [] else [s!"MON C21 short-topic-wrong-length name={hx} impl=[{impl}]"])
+          | _ => [s!"BADLINE {line}"]
+        d ++ m
     | _ => [s!"BADLINE {line}"]
   | _ => if line.startsWith "#" || line.isEmpty then [] else [s!"BADLINE {line}"]
 
